@@ -129,6 +129,11 @@ func validateNumberRange(fv float64, nr *numberRange) error {
 		return nil
 	}
 
+	// NaN 与任何界的比较都为假，不在任何区间之内
+	if fv != fv {
+		return errNumberRange
+	}
+
 	if (nr.leftInclude && fv < nr.left) || (!nr.leftInclude && fv <= nr.left) {
 		return errNumberRange
 	}
